@@ -241,12 +241,12 @@ class PlotModel:
 
 FIELD_POOL = ["density", "temp", "x_velocity", "y_velocity", "z_velocity", "rhoh",
               "Y(H2)", "Y(O2)", "Y(N2)", "mag_vort", "pressure", "a", "b", "phi",
-              "volFrac", "Y(CH2(S))", "mixture_fraction", "f7", "HeatRelease", "x"]
+              "volFrac", "Y(CH2(S))", "mixture_fraction", "f7", "HeatRelease", "xi"]
 
 
 def gen_mesh(src, ndims=None, max_levels=3, max_blocks0=3, max_boxes=24, bfs=(2, 4),
              min_levels=1, tag="w", max_cells=20000, force_3d=False, force_2d=False,
-             origin=True, aniso=True):
+             origin=True, aniso=True, min_cells0=1):
     """Draw mesh structure (no data, no layout)."""
     m = PlotModel()
     if force_3d:
@@ -260,7 +260,8 @@ def gen_mesh(src, ndims=None, max_levels=3, max_blocks0=3, max_boxes=24, bfs=(2,
     nd = m.ndims
     m.nlev = src.draw(f"{tag}.levels", min_levels, max_levels)
     bf = src.choice(f"{tag}.bf", list(bfs))
-    nb0 = [src.draw(f"{tag}.blocks0.{d}", 1, max_blocks0) for d in range(nd)]
+    minb = -(-min_cells0 // bf)
+    nb0 = [src.draw(f"{tag}.blocks0.{d}", minb, max(minb, max_blocks0)) for d in range(nd)]
     # geometry
     if aniso and src.flag(f"{tag}.aniso"):
         cell0 = [src.choice(f"{tag}.dx0.{d}", [0.125, 0.25, 0.5, 0.0625, 0.1, 0.3]) for d in range(nd)]
